@@ -52,6 +52,24 @@ def _call_high(graph, P, Q, D, starts):
     return utils.apply_graph_updates_high_memory(graph, updates, in_graph)
 
 
+@numba.njit(cache=False)
+def _call_high_record(graph, P, Q, D, starts, k_rec):
+    """the same call, returning also the final in_graph record as a padded (n, k_rec) array of sorted members (pad = -2)"""
+    updates = [[(-1, -1, np.inf)] for i in range(starts.shape[0] - 1)]
+    for b in range(starts.shape[0] - 1):
+        for i in range(starts[b], starts[b + 1]):
+            updates[b].append((P[i], Q[i], D[i]))
+    in_graph = [set(graph[0][i].astype(np.int64)) for i in range(graph[0].shape[0])]
+    c = utils.apply_graph_updates_high_memory(graph, updates, in_graph)
+    out = np.full((graph[0].shape[0], k_rec), -2, dtype=np.int64)
+    for i in range(graph[0].shape[0]):
+        j = 0
+        for x in in_graph[i]:
+            out[i, j] = x
+            j += 1
+    return c, out
+
+
 def gen_int_data(rng, n, dim, spread=4):
     X = rng.integers(-spread, spread + 1, size=(n, dim)).astype(np.float32)
     if n >= 6:                       # planted duplicates -> zero distances and ties
@@ -111,8 +129,13 @@ def check_appliers(res, rng, n_cases):
         lines = ["apply low %d %d %d | %s | %s" % (T, n, k, graph_tokens(g0), ups),
                  "apply high %d %d %d | %s | %s" % (T, n, k, graph_tokens(g0), ups),
                  # the TRANSLATED apply_graph_updates_low_memory (Gen/Kernels.lean), same graph, same blocks of updates
-                 "gk_apply %d %d %d | %s | %s | %s" % (T, n, k, graph_tokens(g0), ups, ints_row(starts))]
-        ml, mh, gl_out = run_driver([" ".join(l.split()) for l in lines])
+                 "gk_apply %d %d %d | %s | %s | %s" % (T, n, k, graph_tokens(g0), ups, ints_row(starts)),
+                 # the TRANSLATED apply_graph_updates_high_memory from the record in_graph[i] = set(indices[i])
+                 "gk_apply_high %d %d | %s | %s | %s" % (n, k, graph_tokens(g0), ups, ints_row(starts))]
+        ml, mh, gl_out, gh_out = run_driver([" ".join(l.split()) for l in lines])
+        gr = (g0[0].copy(), g0[1].copy(), g0[2].copy())
+        cr, rec = _call_high_record(gr, P, Q, D, starts, k + 2 * len(P) + 2)
+        irec = "%d | %s | %s" % (int(cr), graph_tokens(gr), " , ".join(ints_row(sorted(int(x) for x in row if x != -2)) for row in rec))
         il = "%d | %s" % (cl, graph_tokens(gl)); ih = "%d | %s" % (ch, graph_tokens(gh))
         case = {"n": n, "k": k, "T": T, "X": X.tolist(), "graph": [a.tolist() for a in g0],
                 "P": P.tolist(), "Q": Q.tolist(), "starts": starts.tolist()}
@@ -124,6 +147,9 @@ def check_appliers(res, rng, n_cases):
             res.corr_fail("apply_low_bit_exact", case, ml[:200], il[:200]); ok = False
         if mh != ih:
             res.corr_fail("apply_high_bit_exact", case, mh[:200], ih[:200]); ok = False
+        res.count("translated:apply_graph_updates_high_memory")
+        if " ".join(gh_out.split()) != " ".join(irec.split()):
+            res.corr_fail("translated-kernel:apply_graph_updates_high_memory", case, gh_out[:300], irec[:300]); ok = False
         res.count("translated:apply_graph_updates_low_memory")
         if gl_out != il:
             res.corr_fail("translated-kernel:apply_graph_updates_low_memory", case, gl_out[:200], il[:200]); ok = False
@@ -247,6 +273,11 @@ def check_init_kernels(res, rng, n_cases):
         m3 = run_driver(["initnbr %d %d %d | %s | %s" % (n, k, k, ints_row(srt[0].ravel()), bits_row(srt[1]))])[0]
         if m3 != graph_tokens(h3):
             res.corr_fail("init_from_neighbor_graph_bit_exact", case, m3[:200], graph_tokens(h3)[:200])
+        # the TRANSLATED init_from_neighbor_graph (Gen/Kernels.lean) on the same arrays
+        g3 = run_driver([" ".join(("gk_initnbr %d %d %d %d | %s | %s" % (n, k, n, k, ints_row(srt[0].ravel()), bits_row(srt[1]))).split())])[0]
+        res.count("translated:init_from_neighbor_graph")
+        if " ".join(g3.split()) != " ".join(graph_tokens(h3).split()):
+            res.corr_fail("translated-kernel:init_from_neighbor_graph", case, g3[:200], graph_tokens(h3)[:200])
         # property: re-seeding reproduces the old lists as multisets of (idx, dist)
         for p in range(n):
             a = sorted(zip(srt[0][p].tolist(), srt[1][p].tolist())); b = sorted(zip(h3[0][p].tolist(), h3[1][p].tolist()))
